@@ -535,3 +535,102 @@ def witness_search(hyps, goal, boxes, special=(), n=4000, seed=0):
             if still:
                 return env
     return None
+
+
+# ----------------------------------------------------------------------------------------------
+# symbolic differentiation of terms (for the derivative-consistency obligation of selects taken on a null set)
+# ----------------------------------------------------------------------------------------------
+class NotDifferentiable(Exception):
+    pass
+
+
+def zdiff(e, x, memo=None):
+    """d e / d x for a z3 real term built from + - * / ** (numeral exponent), If, EXP/LOG/TANH/SQRT and variables"""
+    from .sym import E, L, TH, SQ
+    memo = {} if memo is None else memo
+    k = e.get_id()
+    if k in memo:
+        return memo[k]
+    zero, one = z3.RealVal(0), z3.RealVal(1)
+    if z3.is_rational_value(e) or z3.is_int_value(e) or z3.is_algebraic_value(e):
+        r = zero
+    elif z3.is_const(e):
+        r = one if e.eq(x) else zero
+    else:
+        dk = e.decl().kind()
+        ch = e.children()
+        if dk == z3.Z3_OP_ADD:
+            r = z3.Sum([zdiff(c, x, memo) for c in ch])
+        elif dk == z3.Z3_OP_SUB:
+            r = zdiff(ch[0], x, memo)
+            for c in ch[1:]:
+                r = r - zdiff(c, x, memo)
+        elif dk == z3.Z3_OP_UMINUS:
+            r = -zdiff(ch[0], x, memo)
+        elif dk == z3.Z3_OP_MUL:
+            terms = []
+            for i in range(len(ch)):
+                d = zdiff(ch[i], x, memo)
+                if z3.is_rational_value(d) and d.numerator_as_long() == 0:
+                    continue
+                prod = d
+                for j in range(len(ch)):
+                    if j != i:
+                        prod = prod * ch[j]
+                terms.append(prod)
+            r = z3.Sum(terms) if terms else zero
+        elif dk == z3.Z3_OP_DIV:
+            u, v = ch
+            r = (zdiff(u, x, memo) * v - u * zdiff(v, x, memo)) / (v * v)
+        elif dk == z3.Z3_OP_POWER and z3.is_rational_value(ch[1]):
+            n = ch[1]
+            r = n * ch[0] ** (n - 1) * zdiff(ch[0], x, memo)
+        elif dk == z3.Z3_OP_ITE:
+            r = z3.If(ch[0], zdiff(ch[1], x, memo), zdiff(ch[2], x, memo))
+        elif dk == z3.Z3_OP_TO_REAL:
+            r = zero
+        elif dk == z3.Z3_OP_UNINTERPRETED and len(ch) == 1 and e.decl().name() in ("EXP", "LOG", "TANH", "SQRT"):
+            u, du = ch[0], zdiff(ch[0], x, memo)
+            nm = e.decl().name()
+            r = {"EXP": lambda: E(u) * du, "LOG": lambda: du / u, "TANH": lambda: (1 - TH(u) * TH(u)) * du, "SQRT": lambda: du / (2 * SQ(u))}[nm]()
+        else:
+            raise NotDifferentiable(f"no derivative rule for {e.decl().name()}")
+    r = z3.simplify(r) if not isinstance(r, (int, float)) else z3.RealVal(r)
+    memo[k] = r
+    return r
+
+
+def real_vars(e):
+    out, seen, st = {}, set(), [e]
+    while st:
+        t = st.pop()
+        if t.get_id() in seen:
+            continue
+        seen.add(t.get_id())
+        if z3.is_const(t) and t.decl().kind() == z3.Z3_OP_UNINTERPRETED and t.sort() == z3.RealSort():
+            out[t.decl().name()] = t
+        st.extend(t.children())
+    return out
+
+
+def null_select_obligations(prefix, hyps, null_selects):
+    """-> [(name, hyps, goal)]: on the null set the derivative of the branch taken there equals that of the other branch.
+    One obligation per (select, variable the two branches do not trivially agree on)."""
+    obls = []
+    for k, (cond, on_null, other) in enumerate(null_selects):
+        label = f"{prefix}:select #{k} taken on a null set ({str(cond)[:60]}) has the derivative of the surrounding branch"
+        try:
+            vs = {**real_vars(on_null), **real_vars(other)}
+            cvars = set(real_vars(cond))
+            n = 0
+            for nm in sorted(vs, key=lambda v: (v not in cvars, v)):
+                da, db = zdiff(on_null, vs[nm]), zdiff(other, vs[nm])
+                if da.eq(db) or z3.is_true(z3.simplify(da == db)):
+                    continue
+                obls.append((f"{label} [d/d{nm}]", list(hyps) + [cond], da == db))
+                n += 1
+            if n == 0:
+                obls.append((label, list(hyps) + [cond], z3.BoolVal(True)))
+        except NotDifferentiable as ex:
+            obls.append((f"{label} [{ex}]", list(hyps) + [cond], z3.BoolVal(False)))
+    return obls
